@@ -396,6 +396,25 @@ func mkEntries(w *evWorld) []entry {
 	return es
 }
 
+var spareBuf = make([]byte, 2<<20)
+
+// withComponents returns the CBOR token tok with its software-components array replaced by n copies of item.
+func withComponents(tok []byte, n int, item []byte) []byte {
+	root := cloneNode(rawNode(tok))
+	for i := 0; i+1 < len(root.Items); i += 2 {
+		if k, ok := root.Items[i].IntVal(); ok && (k == -75006 || k == 2399) {
+			e := &cborx.Enc{}
+			e.Arr(n)
+			for j := 0; j < n; j++ {
+				e.Raw(item)
+			}
+			root.Items[i+1] = &cborx.Node{Major: 7, AI: 99, Bytes: e.Bytes()}
+			return encTree(root)
+		}
+	}
+	return nil
+}
+
 func init() {
 	drivers["bytes-fuzz"] = func(a *Args) {
 		var plan bytesPlan
@@ -426,7 +445,14 @@ func init() {
 					var res any
 					var err error
 					t0 := time.Now()
-					kb, pan := measure(func() { res, err = en.run(append([]byte{}, in...)) })
+					// the input as an exactly-sized slice, or as a short slice of a large receive buffer: what is
+					// allocated may depend on the bytes present, not on the capacity behind them
+					arg := append([]byte{}, in...)
+					if b%2 == 1 && len(in) <= len(spareBuf) {
+						copy(spareBuf, in)
+						arg = spareBuf[:len(in)]
+					}
+					kb, pan := measure(func() { res, err = en.run(arg) })
 					ev.Ms = int(time.Since(t0).Milliseconds())
 					ev.AllocKB = kb
 					switch {
@@ -741,6 +767,36 @@ func init() {
 			e2 := &cborx.Enc{}
 			e2.Map(1).Int(2396).Bstr(make([]byte, n))
 			present("cbor", "big-bstr", e2.Bytes())
+			// long component lists in an otherwise valid token: invalid entries (empty map, null, integer) and valid ones;
+			// the whole input stays within 64 KiB
+			for _, p := range []string{"P1", "P2"} {
+				base := cc.DocCBOR(d.base(p, "full"))
+				okComp := &cborx.Enc{}
+				okComp.Map(2).Int(2).Bstr(cc.bytes(32, 2)).Int(5).Bstr(cc.bytes(32, 2))
+				for name, item := range map[string][]byte{"empty": {0xa0}, "null": {0xf6}, "int": {0x01}, "ok": okComp.Bytes()} {
+					m := n
+					if m*len(item) > 60000 {
+						m = 60000 / len(item)
+					}
+					if tok := withComponents(base, m, item); tok != nil {
+						present("cbor", "big-components:"+name, tok)
+						present("cose", "big-components:"+name, assembleSign1(protectedBytes("ES256"), tok, false, w.goodSig[sigID{"k1", "ES256", "cA"}]))
+					}
+					var doc map[string]any
+					if json.Unmarshal(cc.DocJSON(d.base(p, "full")), &doc) == nil {
+						jitem := map[string]string{"empty": "{}", "null": "null", "int": "1",
+							"ok": `{"measurement-value":"AAAAAAAAAAAAAAAAAAAAAAAAAAAAAAAAAAAAAAAAAAA=","signer-id":"AAAAAAAAAAAAAAAAAAAAAAAAAAAAAAAAAAAAAAAAAAA="}`}[name]
+						mj := n
+						if mj*(len(jitem)+1) > 60000 {
+							mj = 60000 / (len(jitem) + 1)
+						}
+						doc["psa-software-components"] = json.RawMessage("[" + strings.TrimSuffix(strings.Repeat(jitem+",", mj), ",") + "]")
+						if out, err := json.Marshal(doc); err == nil {
+							present("json", "big-components:"+name, out)
+						}
+					}
+				}
+			}
 			var sb strings.Builder
 			sb.WriteString("{")
 			for k := 0; k < n && sb.Len() < 1<<20; k++ {
